@@ -24,7 +24,7 @@ Lemma Inv_init (U : tx -> Prop) c now expiry : chain_okb c = true -> (forall b t
 Proof.
   intros Hc HU. constructor; simpl.
   - constructor; simpl; try tauto; try exact empty_pool_ok; try exact HU; try exact Hc.
-  - split; simpl; tauto.
+  - split; [|split]; simpl; tauto.
 Qed.
 
 (* ---- a concrete history ---- *)
